@@ -1214,6 +1214,15 @@ class Evaluator:
                     fr[l] = sm
                     continue
                 wv = wname("local", "_%d" % l)
+                if old_fr[l] == wv and mentions(v, {wv}):
+                    # an accumulator: its new value is a function of its own value at the loop header and of this iteration's
+                    # item.  Remember the step; if it is the same at the fixpoint, the exit value is fold(iterator, init, step).
+                    key = ("fold", h, l)
+                    prev = act.cvisits.get(key)
+                    if prev is not None:
+                        act.cvisits[key] = (prev[0], v if prev[1] in (None, v) else False, wv, prev[3])
+                elif n == 1 and old_fr[l] != wv:
+                    act.cvisits[("fold", h, l)] = (old_fr[l], None, wv, v)    # value before / after the first iteration
                 if v != wv:
                     fr[l] = wv
                 widened.append("_%d" % l)
@@ -1802,6 +1811,10 @@ def first_generic_arg(tys):
 
 
 def len_term(v):
+    if v[0] == "app" and v[1].startswith("collect:") and "Vec<" in v[1] and len(v[2]) == 1:
+        n = iter_count(v[2][0])
+        if n is not None:
+            return n         # collecting an iterator of known count into a Vec
     if v[0] == "app" and v[1] == "subslice" and v[2][1][0] == "int":
         base, lo, hi = v[2]
         if hi[0] == "int":
